@@ -166,6 +166,13 @@ pub fn clear_column(path: &Path, column: ColId) -> Result<()> {
 		return Err(Error::Migration("Invalid column index".into()))
 	}
 
+	// Open the database first so that pending logs are replayed and removed. Otherwise the next
+	// open would replay their records into the cleared column.
+	let mut options = Options::with_columns(path, meta.columns.len() as u8);
+	options.salt = Some(meta.salt);
+	options.columns = meta.columns;
+	drop(Db::open(&options)?);
+
 	crate::column::Column::drop_files(column, path.to_path_buf())?;
 
 	Ok(())
